@@ -325,8 +325,8 @@ Qed.
 (* ---------- the original code is not linearizable: three witnesses ---------- *)
 Definition ct2 : ctable :=
   [("fixnum", ["fixnum"; "integer"; "rational"; "real"; "number"; "t"]); ("string", ["string"; "t"])]%string.
-Definition PB (i : N) := {| b_id := i; b_nmp := false; b_calls := [] |}.
-Definition AB (i : N) := {| b_id := i; b_nmp := false; b_calls := [[]] |}.
+Definition PB (i : N) := {| b_id := i; b_nmp := false; b_fail := false; b_calls := [] |}.
+Definition AB (i : N) := {| b_id := i; b_nmp := false; b_fail := false; b_calls := [([], false)] |}.
 Definition rp (k r : nat) : list nat := repeat r k.
 
 (* (1) C10-6. Routine 0 calls (g 1) and has fetched the effective method [integer: 1] when routine 1
